@@ -567,10 +567,10 @@ def explained_by_lost_hint(f, r):
 def finish(prop, args, seed, t0, results):
     known = [k for k in load_known() if k["prop"] == prop]
     infra = [r["infra"] for r in results if r.get("infra")]
-    # items that were isolated (contract-only) because their body is outside reach on this tree: undecided unless a
-    # violation is found elsewhere — but only for a property the isolated item serves
+    # items that were isolated (contract-only) because their body is outside reach on this tree: undecided for every
+    # property the unit serves (the unverifiable body may matter to any of them), unless a violation is found elsewhere
     for r in results:
-        if r.get("soft_infra") and any(prop in (it.get("props") or []) for it in r.get("isolated_items", [{"props": [prop]}])):
+        if r.get("soft_infra"):
             infra.append(r["soft_infra"])
     obligations = []
     failures = []
